@@ -12,7 +12,7 @@ import (
 func init() {
 	register("C12", &ruleSet{
 		run:    runC12,
-		floors: map[string]int{"O1": 1, "O2": 4, "O3": 4, "O4": 2},
+		floors: map[string]int{"O1": 1, "O2": 4, "O3": 4, "O4": 4},
 		explain: "Decides structurally for the queue limiter: (O1) bound: the enqueue is dominated by the false edge of 'backlog length >= configured maximum' (comparator " +
 			"direction; the maximum derives from the configuration after defaulting), the length read and the enqueue are one exclusive critical section of the limiter mutex, " +
 			"and the refusal edge returns at once without any blocking operation; (O2) membership typestate: after the enqueue every path to return has the caller's element " +
@@ -30,7 +30,9 @@ func runC12(p *Prog, l *Ledger) {
 	l.Rule("O3", "gauges: queue_size is the backlog length accessor under the queue mutex; queue_limit derives from the configured bound")
 	l.Rule("O4", "a waiter leaves the backlog only by its own give-up or together with the capacity handed to it (the C10/O5 evict-with-token rule on the same tree): nothing else removes a caller that is still blocked")
 	l.NotCovered = []string{"instantaneous numeric equality 'reported size = number of blocked callers' in a concurrent history (the structural clauses are its necessary conditions)"}
-	importObligations(p, l, "C10", "O4", func(o *Obligation) bool { return o.Rule == "O5" && strings.Contains(o.Key, "evict-with-token") })
+	importObligations(p, l, "C10", "O4", func(o *Obligation) bool {
+		return o.Rule == "O5" && (strings.Contains(o.Key, "evict-with-token") || strings.HasSuffix(o.Key, "/delivery") || strings.HasSuffix(o.Key, "/raw-completions"))
+	})
 	// the gauges are fed through core's supplier wrappers, which must hand every reading through (C20/O3)
 	importObligations(p, l, "C20", "O3", func(o *Obligation) bool { return o.Rule == "O3" && strings.HasSuffix(o.Key, "/passes-through") })
 	// every enqueue inserts a holder of its own: an element that comes out of a pool / free list can be in the hands of
